@@ -1,4 +1,5 @@
 import Driver.Gen
+import Driver.Book
 import Wee.Spec.San
 /-!
 weedriver run                      : request lines on stdin → `model ||| spec` per line
@@ -63,6 +64,8 @@ def main (args : List String) : IO UInt32 := do
         found := found + 1
       | none => pure ()
     return 0
+  | "book" :: rest => bookMain ("book" :: rest)
+  | "bookprobe" :: rest => bookMain ("bookprobe" :: rest)
   | ["sanreqs"] =>
     -- FEN lines on stdin → `sanmatch` / `lan` request lines for every legal move and every spelling,
     -- plus negative cases (pseudo-legal but illegal moves, fully disambiguated)
